@@ -306,6 +306,9 @@ func checkC06(c *Ctx) {
 		c19StringTags(c, c.oaDecls(pkgOpenAPI), pk.TypesInfo, "R06i")
 	}
 
+	r.Rule("R06j", "codec emitters are called on every successful path of generateFile: a message described by the annotated schema gets its codec also in a file without services (shared with C05/R05j)", 16)
+	codecEmittersUnconditional(c, "R06j")
+
 	conv := c.P.Func(pkgOpenAPI, "Generator.convertField")
 	if conv == nil {
 		r.Unres("R06a", "convertField", "", "not found")
